@@ -88,10 +88,12 @@ class Hist:
                 common = set(self.ev[overl]["keys"]) & set(e["keys"])
                 failed_between = any(self.ev[j]["op"] == "commit" and self.ev[j]["verdict"] == "failed" and set(self.ev[j]["keys"]) & common
                                      for j in range(overl + 1, n))
-                cls = "oracle_rollback_removes_stamp" if failed_between else ("restore_keeps_open_txns" if stale else None)
+                # (a failed commit on the key in between is the pattern of F13, repaired in 229b27b: no longer a known class)
+                cls = "restore_keeps_open_txns" if stale else None
                 out.append((n, "lost-update", cls,
-                            "transaction %d (began at event %d) committed key(s) %s although the commit at event %d wrote %s after it began"
-                            % (e["id"], b, ",".join(sorted(common)), overl, ",".join(sorted(common)))))
+                            "transaction %d (began at event %d) committed key(s) %s although the commit at event %d wrote %s after it began%s"
+                            % (e["id"], b, ",".join(sorted(common)), overl, ",".join(sorted(common)),
+                               " (a commit on that key failed and was rolled back in between)" if failed_between else "")))
             elif e["verdict"] == "conflict" and overl is None:
                 out.append((n, "false-conflict", None,
                             "transaction %d (began at event %d) was answered Conflict on %s; no surviving commit since its begin wrote these keys"
@@ -164,7 +166,8 @@ def a1_script(rng, gi, long_run):
                 wm = max(0, wm - rng.randint(0, 5))     # a regressing caller (debug_assert only)
             L.append("orc publish %d %d %d %s" % (seq, count, wm, ",".join(ks)))
             stamps.append((seq + count - 1, ks))
-            seq += count
+            if rng.random() >= 0.04:
+                seq += count        # else: the next publish may carry the SAME stamp (publish leaves such entries alone)
             if rng.random() < 0.12:
                 # failed commit: roll the latest stamp back
                 L.append("orc rollback %d %s" % (stamps[-1][0], ",".join(ks)))
@@ -346,7 +349,8 @@ LONG_W = dict(begin=14, commit=18, fail=6, end=6, filler=10, burst=5, checkpoint
 
 
 def witness_f13(g):
-    """the Coq witness (Oracle_proofs.v lu_steps) verbatim"""
+    """the history of Oracle_proofs.v lu_steps verbatim: it lost an update before F13 was repaired
+    (rollback removed the entry); now the last commit must be refused"""
     t3 = g.begin("rw")
     t2 = g.begin("rw")
     g.commit(t2, [HOT[0]])
